@@ -463,6 +463,42 @@ def handleEvents (j : Json) : Except String Json := do
   let r : EventLedger.EvRun ← fromJson? j
   pure (Json.mkObj [("diff", strs []), ("mon", strs ((EventLedger.violEvents r).take 12))])
 
+structure RateOp where
+  kind : String          -- "set" | "scale"
+  value : Rat
+  accepted : Bool
+  rate : Rat             -- the plug's rate afterwards
+  deriving FromJson
+
+/-- `ChargerState.set_charge_rate` / `scale_charge_rate`: a request outside `[0, current rate]`
+    (resp. a factor outside `[0, 1]`) is refused and leaves the rate as it was -/
+def rateStep (cur : Rat) (o : RateOp) : Option Rat :=
+  if o.kind == "set" then (if o.value < 0 || cur < o.value then none else some o.value)
+  else (if o.value < 0 || 1 < o.value then none else some (cur * o.value))
+
+/-- function-level record: a sequence of rate changes on one plug -/
+def handleRate (j : Json) : Except String Json := do
+  let factory : Rat ← getField j "factory"
+  let ops : List RateOp ← getField j "ops"
+  let mut cur := factory
+  let mut diffs : List String := []
+  let mut mon : List String := []
+  let mut k := 0
+  for o in ops do
+    let m := rateStep cur o
+    let want := m.getD cur
+    if m.isSome != o.accepted then
+      diffs := diffs ++ [s!"op {k} {o.kind}({Val.show (.q o.value)}) on rate {Val.show (.q cur)}: model accepts={m.isSome} impl accepts={o.accepted}"]
+    else if !(ratAbs (want - o.rate) ≤ absTol want) then
+      diffs := diffs ++ [s!"op {k} {o.kind}({Val.show (.q o.value)}): rate afterwards model={Val.show (.q want)} impl={Val.show (.q o.rate)}"]
+    if o.rate < 0 then
+      mon := mon ++ [s!"C04/negative-rate| {o.kind}({Val.show (.q o.value)}) left the plug with the negative charge rate {Val.show (.q o.rate)}: charging there lowers the level"]
+    if factory < o.rate then
+      mon := mon ++ [s!"C04/rate-above-factory| {o.kind}({Val.show (.q o.value)}) left the plug with rate {Val.show (.q o.rate)} above its factory rate {Val.show (.q factory)}"]
+    cur := o.rate
+    k := k + 1
+  pure (Json.mkObj [("diff", strs diffs), ("mon", strs mon)])
+
 /-- function-level record: one mechatronics operation -/
 def handleMech (j : Json) : Except String Json := do
   let m : Mech ← getField j "mech"
@@ -644,6 +680,10 @@ def handle (st : DState) (line : String) : DState × Json :=
       | .error e => (st, withId (Json.mkObj [("error", Json.str e)]))
     | "events" =>
       match handleEvents j with
+      | .ok r => (st, withId r)
+      | .error e => (st, withId (Json.mkObj [("error", Json.str e)]))
+    | "rate" =>
+      match handleRate j with
       | .ok r => (st, withId r)
       | .error e => (st, withId (Json.mkObj [("error", Json.str e)]))
     | "mech" =>
